@@ -119,6 +119,8 @@ def load_histories() -> list:
         "O": b"{}",
         "M": b'{"1": {"node_id": 1}}',
         "X": b"\xff{",
+        # valid for the schema, but the keys do not match the ids inside (hand-edited file): node under "5", child 3 under "2"
+        "K": json.dumps({"5": dict(json.loads(native_doc())["1"], children={"2": {"child_id": 3, "child_type": 6, "description": "", "values": {"2": "on"}}, "9": {"child_id": 9, "child_type": 3, "description": "", "values": {}}})}).encode(),
     }
     n = 0
     pres = (
